@@ -208,6 +208,20 @@ def rule_p1(ctx, F):
         ctx.gate("P1", fn, [pt for pt, n in adds], [("a span is a difference only where exactly one list covers it", "in_old_range != in_new_range", True)], accept_desc="appending a difference span")
 
 
+def rule_g3(ctx, F):
+    """The state compared by iterator_compare includes the alias of *visible* nodes too."""
+    fn = ctx.need_fn(F, "iterator_get_visible_state", "G3")
+    if fn:
+        acc = [pt for pt, n in find(fn, "*tree = *entry.subtree")]
+        ctx.floor("visible-state hand-over in iterator_get_visible_state", len(acc), 1)
+        ctx.gate("G3", fn, acc, [("the parent's alias for this child is looked up for every non-root entry, visible or not",
+                                  [("i > 0", False), ("*alias_symbol = ts_language_alias_at(self->language, _, entry.structural_child_index)", "stmt")])],
+                 accept_desc="handing the visible subtree to the comparison")
+    g = ctx.need_fn(F, "iterator_compare", "G3")
+    if g:
+        pass
+
+
 class FoldMonitor(Monitor):
     """After a step-over trigger, the stepped-over subtree's last external token must be folded
     into prev_external_token (or shown to be absent) before the walk moves on."""
@@ -287,6 +301,7 @@ def run(ctx):
         rule_w1(ctx, F)
         rule_p1(ctx, F)
         rule_p2(ctx, F)
+        rule_g3(ctx, F)
     return ctx.finish(
         "Gate rules over the Clang CFGs of get_changed_ranges.c/tree.c/parser.c: `IteratorMatches` (skip) is returned/taken only after every listed "
         "difference test failed and no included-range difference intersects; changed steps are recorded; TSRangeArray elements are appended only by the "
